@@ -371,6 +371,13 @@ class Gen:
     def has_semantics_kwargs(self):
         sem = self.opt(self.reference)
         supp = [self.reference() for _ in range(self.rng.randint(0, 2))] if sem is not None else []
+        # (round 8) an ordered list may hold EQUAL entries: about every fourth non-empty list repeats its first reference at the
+        # end (an equal, separately built object).  Decided from the content, not from the generator's stream, so that all
+        # other generated data stay what they were.
+        if supp and sum(map(ord, repr(supp[0]))) % 4 == 0:
+            import copy
+            supp.append(copy.deepcopy(supp[0]))
+            self.hit("supplemental:repeated-entry")
         return {"semantic_id": sem, "supplemental_semantic_id": supp}
 
     def qualifier(self, type_: str):
